@@ -105,9 +105,10 @@ def run_for(pid):
                             ctx.note('not_judged_after_known_finding')
                         else:
                             sig2 = dict(sig, property=pid)
+                            tabn = res.get('tables', {}).get(tid, core.TAB)
                             ctx.violation(sig2, {'diag': d, 'suite': suite},
-                                          {'table': core.TAB, 'history': h, 'step': d['step'],
-                                           'how': 'harness/explain.py %s <history json>' % core.TAB})
+                                          {'table': tabn, 'history': h, 'step': d['step'],
+                                           'how': 'harness/explain.py %s <history json>' % tabn})
                     for k in all_known:
                         if checklib.sig_matches(k['signature'], dict(sig, property=k['property'])):
                             tainted = True
